@@ -45,6 +45,13 @@ CLAIMED.update({
             "Tuning-knob randomisation of the read block size over boundary-targeted content; known finding F-C12a is steered around and shown by a pinned replay."),
 })
 
+CLAIMED.update({
+    "C13": ("exploration", "3 C13", TECH + "reference decoration model (file field, datetime field via an independent strftime, separators, display-width alignment) predicts stdout byte for byte; colour runs compared after deleting SGR sequences; metamorphic strip oracle for utmp/evtx/journal; simulated local zone (TZ) and program-start clock",
+            "Model oracle over simulated runs with option tuples, zones and names sampled."),
+    "C19": ("exploration", "3 C19", TECH + "conservation over the print history: run with and without --summary under the same plan; totals == len(stdout) and model counts; per-file sums + separators + supplied newlines == total; resolved filter and first/last datetimes == model",
+            "Conservation / accounting oracle over the coordinator's print history with decoration options varied; known finding F-C19a attributed by signature."),
+})
+
 NOT_APPLICABLE = {
     "C04": "pure function from (line bytes, pattern table, fallback zone) to an instant: no schedule, clock, fault or interleaving to simulate (DESIGN section 5)",
     "C16": "pure terminating recursion on a file-name string: no I/O, time or concurrency to simulate (DESIGN section 5)",
